@@ -30,6 +30,8 @@ def _worker(pid: str, tier: str, seed: int, shard: int, nshards: int, out: str) 
 
     mod = importlib.import_module(f"vf.checks.{pid.lower()}")
     ctx = core.Ctx(pid, tier, seed, shard, nshards)
+    mode = _apply_interpreter_mode()
+    ctx.count("shards_run:" + mode)
     status = "ok"
     reason = None
     from vf.monitors import AnchorCoverage
@@ -57,6 +59,48 @@ def _worker(pid: str, tier: str, seed: int, shard: int, nshards: int, out: str) 
     return 0
 
 
+def shard_mode(i: int, nshards: int) -> str:
+    """
+    The deployment a shard imitates. Shard 0 is always the plain interpreter; with more shards some run under `python -O`
+    (asserts stripped, __debug__ False) and / or with every logger of the library switched on down to level 1 and a handler that
+    formats each record. Neither changes what correct code does - both are ways real installations run - so neither can raise a
+    false alarm; a change whose damage only shows there (work done inside an assert, a log statement that consumes a generator
+    or formats with side effects) is seen.
+    """
+    if nshards < 2:
+        return "plain"
+    return ("plain", "optimized+logging", "logging", "optimized")[i % 4]
+
+
+def _apply_interpreter_mode() -> str:
+    """the -O half of the mode is a command-line flag of this process already; the logging half is applied here"""
+    want = os.environ.get("VERIF_SHARD_MODE", "plain")
+    if "logging" in want:
+        import logging
+
+        class _FormatAndDrop(logging.Handler):
+            def emit(self, record):
+                try:
+                    record.getMessage()  # what any real handler does first
+                except Exception:  # pylint:disable=broad-except
+                    pass  # real handlers report a formatting error on stderr and carry on (Handler.handleError)
+
+        logging.disable(logging.NOTSET)  # vf.repo silences the library for speed: not in this mode
+        root = logging.getLogger()
+        root.addHandler(_FormatAndDrop(level=1))
+        root.setLevel(1)
+        for name, logger in list(logging.root.manager.loggerDict.items()):
+            if isinstance(logger, logging.Logger) and (name == "ahbicht" or name.startswith("ahbicht.")):
+                logger.setLevel(1)
+        logging.getLogger("ahbicht").setLevel(1)
+    got = []
+    if sys.flags.optimize:
+        got.append("optimized")
+    if "logging" in want:
+        got.append("logging")
+    return "+".join(got) or "plain"
+
+
 def _anchor_files(pid: str):
     """the anchor files of the property (from properties.jsonl)"""
     try:
@@ -76,7 +120,14 @@ def _replay(pid: str, path: str) -> int:
 
     with open(path, encoding="utf-8") as f:
         witness = json.load(f)
+    mode = witness.get("interpreter_mode", "plain")
+    if os.environ.get("VERIF_SHARD_MODE") is None:
+        os.environ["VERIF_SHARD_MODE"] = mode
+        if "optimized" in mode and not sys.flags.optimize:
+            # the witness comes from a shard that ran under `python -O`: replay it the same way
+            return subprocess.run([sys.executable, "-O", "-m", "vf.run", pid, "--replay", path], cwd=core.VERIF, check=False).returncode
     mod = importlib.import_module(f"vf.checks.{pid.lower()}")
+    _apply_interpreter_mode()
     ctx = core.Ctx(pid, witness.get("tier", "quick"), int(witness.get("seed", 0)), replaying=True)
     asyncio.run(mod.replay(ctx, witness["phase"], core.unjson(witness["case"])))
     known = core.load_known_findings()
@@ -122,9 +173,10 @@ def _orchestrate(pid: str, tier: str, seed: int) -> int:
 
     def run_shard(i: int):
         out = os.path.join(work, f"shard{i}.json")
-        cmd = [sys.executable, "-m", "vf.run", pid, "--tier", tier, "--seed", str(seed), "--shard", f"{i}/{nshards}", "--out", out]
+        mode = shard_mode(i, nshards)
+        cmd = [sys.executable] + (["-O"] if "optimized" in mode else []) + ["-m", "vf.run", pid, "--tier", tier, "--seed", str(seed), "--shard", f"{i}/{nshards}", "--out", out]
         try:
-            proc = subprocess.run(cmd, cwd=core.VERIF, env=env, timeout=timeout, capture_output=True, text=True, check=False)
+            proc = subprocess.run(cmd, cwd=core.VERIF, env=dict(env, VERIF_SHARD_MODE=mode), timeout=timeout, capture_output=True, text=True, check=False)
         except subprocess.TimeoutExpired:
             return {"status": "timeout", "reason": f"shard {i} exceeded the watchdog of {timeout}s"}
         if not os.path.exists(out):
